@@ -466,6 +466,16 @@ STMT_SHAPES = [
     "while (({D}), k < 2) k++; k += {U};",
     "for (;; ({D})) { if (k++ >= {U}) break; }",
     "do if (k) {D}; while (++k < {U});",
+    # the two sub-statements of an if are separate blocks: what the first declares is not visible in the else part (which runs here)
+    "if (k > {U}) {D}; else k += {U};",
+    "if (k) {D}; else if (k < {U}) k += {U}; else k = -1;",
+    "if (k > {U}) {D}; else if (k) k = 0; else k += {U};",
+    "if (k) k++, {D}; else {{ k += {U}; }} k += {U};",
+    "if (k) {D}; else while (k < {U}) k++;",
+    "if (k) {D}; else for (; k < {U}; k++) ;",
+    "if (k) {D}; else switch (k) default: k += {U};",
+    "if (k) if (k > 1) {D}; else k = 7; else k += {U};",
+    "while (k < 1) if (k) {D}; else k += {U};",
 ]
 
 
@@ -480,7 +490,7 @@ def stmt_check(case, ctx):
     res = Result()
     decl = STMT_DECLS[case["decl"]] % {"n": "LIM", "t": "pt", "v": 100}
     use = "LIM" if "enum" in decl else "(int)sizeof(struct pt)" if "struct" in decl else "(int)sizeof(union pt)"
-    shape = STMT_SHAPES[case["shape"]].replace("{D}", decl).replace("{U}", use)
+    shape = STMT_SHAPES[case["shape"]].replace("{D}", decl).replace("{U}", use).replace("{{", "{").replace("}}", "}")
     outer = "enum { LIM = 3 };" if "enum" in decl else "struct pt { char c[3]; };" if "struct" in decl else "union pt { char c[3]; };"
     src = PROLOGUE + "%s\nint main(void) {\n\tint k = 0;\n\t%s\n\tchk_i64(k);\n\tchk_i64(%s);\n\treturn 0;\n}\n" % (outer, shape, use)
     c = {"src": src, "expect": None, "t": case["t"], "profile": "stmt-scope", "std": "gnu11", "always_ref": True}
